@@ -64,6 +64,17 @@ def store_check(ctx, prop):
     op = os.path.join(ctx.work, "groups.ndjson")
     s1 = ctx.vh_json(["store-gen", gp, op])
     judge_groups(ctx, op, prop, "groups of real runs of the Machine.tla family")
+    # the exhaustive two-asset, three-statement family (late or missing requests)
+    fam = gen_lines(ctx, "StoreFam", "StoreFam_%s.cfg" % ctx.tier, "StoreFam.tla: every short sequence of sends and saves over two assets", timeout=3000)
+    fp = os.path.join(ctx.work, "fam.ndjson")
+    open(fp, "w").write("\n".join(fam) + "\n")
+    op3 = os.path.join(ctx.work, "groups3.ndjson")
+    s3 = ctx.vh_json(["store-gen", fp, op3])
+    judge_groups(ctx, op3, prop, "groups of real runs of the StoreFam.tla family")
+    ctx.cov["evaluations"] += s3["runs"]
+    ctx.cov["distinct_nontrivial"] += s3["nontrivial"]
+    ctx.cov["traces_validated_against_impl"] += s3["groups"]
+    ctx.cov["tlc_behaviours_replayed_family"] = s3["behaviours"]
     # random programs biased to early requests x TLC-enumerated reply-shape sequences
     seqs = gen_lines(ctx, "StoreEnv", "StoreEnv.cfg", "all reply-shape sequences up to 4 calls")
     sp = os.path.join(ctx.work, "modeseqs.ndjson")
